@@ -531,3 +531,119 @@ Example C16_example_list_fields :
   lex_fields ["ALPHA"; "KIND_BETA"]%string
   = Ok (map bytes_of ["kind"; "weight"; "flag"; "sub.flag"], map bytes_of ["weight"], map bytes_of ["title"; "sub.title"])%string.
 Proof. exact list_fields_example. Qed.
+
+(* ---- the client clauses against an independent, declarative reading (proofs/PipelineSpecProofs.v) ------------
+   client_meets svc d cm: cm has the declared service / name / verb, its path is the declared one segment by
+   segment, every ":name" segment names a request property which is a path property of cm, the path properties
+   are exactly the request properties so named, for GET the other properties are the query and there is no
+   body, for every other verb they are the body and there is no query, order kept, response as declared.
+   It is stated by membership in the declaration only (no fill_request / path_param_names / filter). *)
+From J5V.proofs Require Import PipelineSpecProofs.
+
+Definition C16_full_declarative_statement : Prop :=
+  forall (to_snake : str -> str) (P : decl_package), valid_package to_snake P ->
+    let r := run_chain current_config (compile_image to_snake P) in
+    exists cms ks,
+      cr_source r = Ok (declared_api P)
+      /\ cr_client r = Ok (cms, ks)
+      /\ Forall2 (fun sd cm => client_meets (fst sd) (snd sd) cm) (declared_methods P) cms
+      /\ cr_swagger r = Ok tt.
+
+Theorem C16_full_declarative : C16_full_declarative_statement.
+Proof. exact chain_full_declarative. Qed.
+Print Assumptions C16_full_declarative.
+
+Theorem C16_declared_client_meets : forall to_snake g svc d, wf_decl to_snake (df_decl d) ->
+  client_meets svc d (declared_client g svc d).
+Proof. exact declared_client_meets. Qed.
+Print Assumptions C16_declared_client_meets.
+
+(* the reading pins the observable parts down: two client methods meeting one declaration agree on path
+   properties (as lists), path, verb and response *)
+Theorem C16_client_meets_unique : forall svc d cm cm', NoDup (df_req d) ->
+  client_meets svc d cm -> client_meets svc d cm' ->
+  r_path (cm_req cm) = r_path (cm_req cm') /\ cm_path cm = cm_path cm' /\ cm_verb cm = cm_verb cm' /\ cm_resp cm = cm_resp cm'.
+Proof. exact client_meets_unique_path. Qed.
+Print Assumptions C16_client_meets_unique.
+
+Example C16_example_declarative :
+  exists cms, Forall2 (fun sd cm => client_meets (fst sd) (snd sd) cm) (declared_methods ex_pkg) cms /\ cms <> [].
+Proof.
+  destruct (chain_full_declarative ex_snake ex_pkg C16_example_valid_package) as (cms & ks & _ & _ & H & _).
+  exists cms. split; [exact H|]. intro E. subst cms. inversion H.
+Qed.
+
+(* ---- the generated tables as probes of the model functions (proofs/PipelineProbeProofs.v) -------------------
+   classify_service at "Foo" ++ every HasSuffix literal of addStructure (in source order), build_method at every
+   arm number of the switch on httpOpt.Pattern (and outside), has_body against the verb named by the Go HasBody
+   expression, map_part at every character of the ContainsAny literal (and at others) *)
+From J5V.proofs Require Import PipelineProbeProofs.
+
+Theorem C16_table_probes :
+  (map (fun s => svc_kind_code (classify_service (probe_name s))) SwaggerGen.add_structure_suffixes = [0; 0; 1; 2]%N
+   /\ svc_kind_code (classify_service (probe_name "")) = 3%N
+   /\ forallb (fun s => N.eqb (svc_kind_code (classify_service (removelast (probe_name s)))) 3) SwaggerGen.add_structure_suffixes = true)
+  /\ forallb (fun v => Bool.eqb (is_ok (build_method (probe_meth v)))
+                                (N.leb 1 v && N.leb v (N.of_nat (length SwaggerGen.http_rule_arms))))
+             [0; 1; 2; 3; 4; 5; 6; 7; 8]%N = true
+  /\ (exists v, no_body_verb = Some v
+                /\ forallb (fun w => Bool.eqb (has_body w) (negb (N.eqb w v))) [1; 2; 3; 4; 5]%N = true)
+  /\ (forallb (fun c => is_err (map_part [] [97; c; 98]%N)) gen_invalid = true
+      /\ forallb (fun c => existsb (N.eqb c) gen_invalid || is_ok (map_part [] [97; c; 98]%N))
+                 [33; 36; 42; 45; 46; 47; 58; 61; 95; 97; 123; 124; 125; 126]%N = true
+      /\ length gen_invalid = 4%nat).
+Proof. exact (conj suffix_probe (conj http_arm_probe (conj has_body_probe invalid_chars_probe))). Qed.
+Print Assumptions C16_table_probes.
+
+(* ---- the first artefact: the source image (PrintFile -> ReadFSImage), through the file model of C05 ----------
+   for every well-formed compiled descriptor the printed tokens are read back without error, and the descriptor
+   read back has the same package and, element for element (services with their methods, input / output types and
+   options; messages with fields, json names and options; enums), equivalent contents — so addStructure reads the
+   same services from the image as from the compiler's descriptors. wf_dfile is evaluated on every compiled file
+   of a C05 run (file stream). The characters between the tokens and map-entry field options are C05's partial /
+   known parts. *)
+Theorem C16_source_image_stage : forall imp D, ProtoPrintFileFullProofs.wf_dfile imp D ->
+  exists D', ProtoParseFile.parse_file_tokens imp
+               (ProtoPrintFile.print_file_tokens (ProtoPrintFile.to_symtab (ProtoPrintFile.dfile_symtab imp D)) D) = Some D'
+    /\ ProtoPrintFile.d_pkg D' = ProtoPrintFile.d_pkg D
+    /\ (forall e, In e (ProtoPrintFile.d_body D) ->
+          exists e', In e' (ProtoPrintFile.d_body D') /\ ProtoPrintFileFullProofs.elem_equiv e e')
+    /\ (forall e', In e' (ProtoPrintFile.d_body D') ->
+          exists e, In e (ProtoPrintFile.d_body D) /\ ProtoPrintFileFullProofs.elem_equiv e e').
+Proof. exact image_stage. Qed.
+Print Assumptions C16_source_image_stage.
+
+(* the list-method example package is inside the hypotheses of C16_full / C16_full_lists / C16_full_declarative *)
+Example C16_example_list_valid : valid_package ex_snake ex_list_pkg.
+Proof. apply valid_package_b_sound. vm_compute. reflexivity. Qed.
+
+(* ---- what a list method exposes, against a declarative reading (proofs/PipelineWalkSpecProofs.v) -------------
+   walked g k anc path q t: the property path q (type t) is reached from schema k by a chain of properties through
+   object / oneof references, no schema being entered again while it is being walked higher up on the same chain.
+   The model of walkSchemaFields reports exactly these; the root of a list request is the item object of the ONE
+   array property of the response (single_object_array). With C16_full: the cm_list of every declared list method
+   is the set of walked paths of that item object in the client view of the schema environment (cenv). *)
+From J5V.proofs Require Import PipelineWalkSpecProofs.
+
+Theorem C16_walk_fields_spec : forall fuel g k anc path l,
+  walk_fields fuel g k anc path = Ok l -> forall q t, In (q, t) l <-> walked g k anc path q t.
+Proof. exact walk_fields_spec. Qed.
+Print Assumptions C16_walk_fields_spec.
+
+Theorem C16_list_root_spec : forall resp root, list_root resp = Ok root ->
+  exists ps, resp = Some ps /\ single_object_array ps root.
+Proof. exact list_root_spec. Qed.
+Print Assumptions C16_list_root_spec.
+
+Theorem C16_declared_list_spec : forall g svc d l, cm_list (declared_client g svc d) = Some l ->
+  is_query_request (df_req d) = true
+  /\ exists ps root, df_resp d = Some ps /\ single_object_array ps root
+       /\ forall q t, In (q, t) l <-> walked (cenv g) root [] [] q t.
+Proof. intros g svc d l. exact (declared_list_spec g d l). Qed.
+Print Assumptions C16_declared_list_spec.
+
+Example C16_example_walked :
+  exists l, cm_list (declared_client (im_schemas (compile_image ex_snake ex_list_pkg)) (bytes_of "Foo")
+                       (hd {| df_name := []; df_verb := 0; df_parts := []; df_req := []; df_resp := None |} (all_methods ex_list_pkg))) = Some l
+            /\ l <> [].
+Proof. eexists. split; [vm_compute; reflexivity|discriminate]. Qed.
